@@ -130,7 +130,12 @@ func init() {
 	// pts: points "lon:lat:alt:u" (u = oracle for the stored latitude, supplied by the generator), zooms
 	op("pts", func(a []string) string {
 		var l []*object.Point
-		for _, it := range split(a[0]) {
+		pitems := split(a[0])
+		for k, it := range pitems {
+			if k > 0 && it == pitems[k-1] { // the same point OBJECT twice in a row
+				l = append(l, l[k-1])
+				continue
+			}
 			f := strings.Split(it, ":")
 			if f[0] == "nil" {
 				l = append(l, nil)
@@ -146,7 +151,12 @@ func init() {
 	})
 	op("ptssp", func(a []string) string {
 		var l []*object.Point
-		for _, it := range split(a[0]) {
+		pitems := split(a[0])
+		for k, it := range pitems {
+			if k > 0 && it == pitems[k-1] { // the same point OBJECT twice in a row
+				l = append(l, l[k-1])
+				continue
+			}
 			f := strings.Split(it, ":")
 			if f[0] == "nil" {
 				l = append(l, nil)
@@ -268,6 +278,9 @@ func init() {
 						continue
 					}
 					l = append(l, join4(q[0], q[1], alts[rng.Intn(na)], q[3]))
+					if rng.Intn(8) == 0 { // the same point object again, next to itself
+						l = append(l, l[len(l)-1])
+					}
 				}
 			} else {
 				for j := 0; j < k; j++ {
@@ -335,8 +348,8 @@ func init() {
 				e.y += int64(rng.Intn(5) - 2)
 			}
 			opt := int64(rng.Intn(2))
-			if rng.Intn(40) == 0 {
-				opt = 2 + int64(rng.Intn(3))
+			if rng.Intn(30) == 0 { // unknown options on both sides of the enum
+				opt = []int64{2, 3, 4, -1, -2, -100, 1 << 40}[rng.Intn(7)]
 			}
 			if rng.Intn(4) == 0 {
 				e.v = e.h
